@@ -323,6 +323,9 @@ func (r *run) applyContract(fr *frame, st *State, ct *Contract, sig *types.Signa
 		kind = "callee-pre"
 		r.assumed["assumed contract: "+ct.Key] = true
 	}
+	for _, l := range ct.Lets {
+		env.extra[l.Name] = env.tr(l.Expr)
+	}
 	for _, rq := range ct.Requires {
 		t := r.specBool(env, rq.Expr, rq.Text)
 		r.oblige(fr.name, kind, reach, t, fmt.Sprintf("%s requires %s", cname, rq.Text), pos)
